@@ -13,7 +13,8 @@
    required argument, non-interface) and for every kind of invalid extension is decided per
    rewritten model by the check (specification predicates in Coq vs create_engine), not proved. *)
 From Coq Require Import ZArith List String Bool.
-From TV Require Import Py.Prelude Model.Schema Model.ImplValidate Model.SchemaBuild Model.SpecSchema Proofs.SchemaProofs.
+From TV Require Import Py.Prelude Model.Schema Model.ImplValidate Model.SchemaBuild Model.SpecSchema Proofs.SchemaProofs
+     Gen.Wiring_gen Proofs.Wiring.
 Import ListNotations.
 Open Scope string_scope.
 Open Scope list_scope.
@@ -32,6 +33,13 @@ Theorem C12_interface_type_check_exact g ft it :
   same_as_interface_type g ft it = Some (valid_impl_type g ft it).
 Proof. exact (interface_type_check_exact g ft it). Qed.
 
+(* tie to the current source (regenerated on every run): the validator lists and the order of the
+   steps of GraphQLSchema.bake are the ones the build model transcribes *)
+Theorem C12_source_runs_the_modelled_validators :
+  src_schema_validators = model_schema_validators /\ src_extension_validators = model_extension_validators /\
+  src_bake_steps = model_bake_steps.
+Proof. exact (conj schema_validators_are_the_models (conj extension_validators_are_the_models bake_steps_are_the_models)). Qed.
+
 (* non-vacuity *)
 Definition T (n : string) (d : typedef) : tdecl := {| td_name := n; td_def := d; td_dirs := [] |}.
 Definition bad : sdl :=
@@ -44,6 +52,7 @@ Proof. vm_compute. eexists. split; reflexivity. Qed.
 Example C12_bad_not_built : builds bad = false.
 Proof. vm_compute. reflexivity. Qed.
 
+Print Assumptions C12_source_runs_the_modelled_validators.
 Print Assumptions C12_duplicate_definitions_rejected.
 Print Assumptions C12_defective_schema_rejected.
 Print Assumptions C12_validators_report_defects.
